@@ -96,6 +96,31 @@ CLAIMS["C02"] = {
     "design_ref": "DESIGN.md section 5, C02",
 }
 
+CLAIMS["C05"] = {
+    "text": "Full proof modulo the DEFLATE library: every frame genFrame builds decodes, with the independent RFC 6455 decoder written in Lean, to exactly one frame with the shortest-form length, mask bit and key iff client, RSV2/RSV3 clear, RSV1 iff compressed, the requested opcode/FIN, whose unmasked payload is the application payload (genFrame_decodes; the padded-buffer back-fill is modelled literally) or, compressed, the compressor output minus its tail, which inflates to the payload under the Codec law (genFrame_inflates); control frames are single FIN frames; rejected calls produce no bytes; WriteFile, for EVERY reader chunking and EVERY cutting of the compressor output into Write calls, emits op,0,0,... with FIN exactly on the last and RSV1 exactly on the first iff compression is on, and the concatenated payloads are the segments (plain) or the compressor output minus exactly one trailing 00 00 ff ff (writeFile_frames). The real wire of every API/length boundary/role/compression setting is decoded by the Lean decoder and inflated by the Lean inflater in the write suite.",
+    "note": "Trusted: Lean kernel; klauspost compressor conformance (hypotheses hL1/hL2, sampled); bytes.Buffer/copy as modelled; the write suite's Go-side summariser.",
+    "technique": "Lean 4 round-trip proofs (encode then decode with an independent spec decoder) + differential correspondence on the observed wire",
+    "design_ref": "DESIGN.md section 5, C05",
+}
+CLAIMS["C07"] = {
+    "text": "Partial. Proved over the connection transition system for every interleaving and fault position: callbacks have the shape open, messages, close; open and close occur at most once; when the read loop is done the close callback has been delivered exactly once, last, with the stored (non-nil) cause; message callbacks happen one at a time in script (wire) order (callback_shape, reader_done_closed_once, messages_in_wire_order). What is delivered between open and close is the read-path model's trace (C03). Not in the model: parallel dispatch and recover(); bounded parallelism and panic absorption are observed by the suites (racy parallel-handlers, read) only.",
+    "note": "Trusted: Lean kernel; atomic sections as in C06; parallel handling/recover semantics observed only.",
+    "technique": "Lean 4 invariant proofs over a transition system of atomic sections + schedule replay on the real code through scheduling hooks",
+    "design_ref": "DESIGN.md section 5, C07",
+}
+CLAIMS["C08"] = {
+    "text": "Proof over the connection transition system, for any number of writers of any kind and every interleaving: every transport write delivers one whole frame and a partial frame can only be left by a failed transport write; the frames of one WriteFile are adjacent, in order, FIN exactly on the last; a write call returns success iff its complete message is on the wire exactly once, and a call rejected for its content contributes no data frame (it does close the connection). The data-race clause is a statement about the Go memory model: validated with the race detector on concurrent scenarios (two races found and fixed), not proved (partial).",
+    "note": "Trusted: Lean kernel; mutex/CAS atomicity and one-Write-per-frame (facts extracted from the source); the hook scheduler; race detector as validation.",
+    "technique": "Lean 4 invariant proofs over a transition system of atomic sections + schedule replay through hooks + race detector (validation)",
+    "design_ref": "DESIGN.md section 5, C08",
+}
+CLAIMS["C09"] = {
+    "text": "Partial. Proved over the connection transition system with transport faults allowed at every write and read errors at every read: transport closed implies the closed flag; the close callback is delivered at most once and last, with a non-nil argument; no reachable state deadlocks (some actor can always move unless all are done); every schedule is finite (a measure strictly decreases with every action), and when all actors are done on a closed connection the transport is closed and the close callback delivered (teardown_complete). The clause 'a local close completes while another writer is stalled' is FALSE of gws: witness state proved (closer_blocked_behind_stalled_writer), reproduced on the real code and listed as a known finding. Handshake fault paths, goroutine hygiene and wall-clock bounds are observed by fault enumeration (faults suite), not proved.",
+    "note": "Trusted: Lean kernel; atomic sections as in C06; runtime clauses observed. Known finding KF-C09-stall-close.",
+    "technique": "Lean 4 invariant + variant (termination measure) proofs over a transition system with environment faults + fault enumeration on real sessions and handshakes",
+    "design_ref": "DESIGN.md section 5, C09",
+}
+
 NOT_CLAIMED = {}
 
 # checks that exist but are not claimed in this commit (with the reason)
